@@ -121,7 +121,7 @@ func mkScenario(sc *scenario) *sched.Scenario {
 		Name:       sc.Name,
 		Classes:    []string{"l2", "dio", "file"},
 		Epoch:      epoch,
-		MaxVirtual: 2 * time.Hour,
+		MaxVirtual: 8 * time.Hour,
 		StallAt:    stallMap(sc),
 		Setup: func(x *sched.Execution) []sched.ThreadSpec {
 			sopenv.Restore(2)
@@ -267,6 +267,11 @@ func mkScenario(sc *scenario) *sched.Scenario {
 				return
 			}
 			env.final = txn.ReadAll(sopenv.Bg, names(sc))
+			// a reader whose commit-time validation fails was told so and retries (optimistic protocol); only a
+			// failure that persists over retries means the caches keep serving superseded data
+			for i := 0; i < 2 && len(env.final.Errs) > 0; i++ {
+				env.final = txn.ReadAll(sopenv.Bg, names(sc))
+			}
 			sopenv.ResetCaches()
 			env.cold = txn.ReadAll(sopenv.Bg, names(sc))
 		},
@@ -831,8 +836,20 @@ func rootCause(trace []string) string {
 			}
 			if strings.HasPrefix(es[j].label, "ReadAt ") {
 				blk := strings.TrimPrefix(es[j].label, "ReadAt ")
+				// (since fix 24fd87d0 the filler reads the block again and deletes its fill when the block changed)
+				repaired := false
+				lid := strings.TrimPrefix(e.label, "SetStruct ")
+				for k, n := i+1, 0; k < len(es) && n < 8; k++ {
+					if es[k].tid != e.tid {
+						continue
+					}
+					n++
+					if es[k].class == "l2" && es[k].label == "Delete "+lid {
+						repaired = true
+					}
+				}
 				for k, w := range es {
-					if w.tid != e.tid && w.class == "dio" && w.label == "WriteAt "+blk && w.exec > es[j].exec && w.exec <= e.exec && k < len(es) {
+					if !repaired && w.tid != e.tid && w.class == "dio" && w.label == "WriteAt "+blk && w.exec > es[j].exec && w.exec <= e.exec && k < len(es) {
 						return "stale-registry-cache-fill"
 					}
 				}
@@ -1174,6 +1191,12 @@ func checkC20(viol func(kind, detail string), sc *scenario, env *execEnv, initia
 	sort.Slice(ws, func(i, j int) bool { return ws[i].EndAt < ws[j].EndAt })
 	for _, r := range env.recs {
 		if r == nil || r.Prog.Mode == sop.ForWriting {
+			continue
+		}
+		if r.Prog.Mode == sop.ForReading && !r.Committed && r.EndErr != "" {
+			// The reader's Commit returned an error: SOP validates what a reader fetched at commit time ("on commit,
+			// SOP will ensure the items you read did not change", docs/GO_CORE_ENGINE.md) and has told this reader
+			// that its reads do not stand. What it returned before that is not a read the caller may rely on.
 			continue
 		}
 		must := 0
